@@ -164,7 +164,13 @@ def harnesses(tier):
             "Ket/Bra up to 2 bits; scalar u+iv symbolic",
             outside="mixed scalars (NotImplementedError)", timeout_s=T,
             solver_timeout_ms=120000)]
-    n, m = (2, 2) if q else (2, 3)
+    if not q:
+        hs.append(H("circuits_3q", circuits, dict(n=3, m=1), FUNCS,
+                    covers=["circuit"], engine="SYM (z3 QF_NRA)",
+                    bounds="3 qubits, 1 layer, every gate at every offset, "
+                    "optional Ket preparation and Bra post-selection",
+                    timeout_s=T, solver_timeout_ms=60000))
+    n, m = (2, 2)
     hs.append(H("circuits", circuits, dict(n=n, m=m), FUNCS,
                 covers=["circuit"], engine="SYM (z3 QF_NRA)",
                 bounds="%d qubits, %d layers over {Rz,Rx,CRz,CRx,CU1,H,CX,CZ,"
